@@ -13,6 +13,7 @@ CONSTANTS
   WithErrors = FALSE
   WithIdle = FALSE
   WithSleep = TRUE
+  WithWalFaults = FALSE
   WithStop = FALSE
   TimeoutTypes = {}
   KeepLog = FALSE
